@@ -6,13 +6,21 @@ import treegen as T
 
 MODEL = "C09"
 PROP_FILES = ["Props/C09.v"]
-RULE = ("DefaultApplicationConfig applications over seeded command trees x valid command lines (every named path + its required "
-        "arguments) x every ordered selection of <= 2 of the 13 switch spellings (-q --quiet -v -vv -vvv --ansi --no-ansi -n "
-        "--no-interaction -h --help -V --version) inserted at every position, sampled selections of 3, and the same tokens after "
-        "'--'; handlers record the IO settings, write styled text at every verbosity level to both streams, ask a question with a "
-        "default, or raise; non-trivial = >= 1 switch; distinct by (tree, line)")
+RULE = ("DefaultApplicationConfig applications over seeded command trees (depth 2, one tree with a path of 3 commands per run) x "
+        "valid command lines (named paths spelled by names, + their required arguments, + the command's own option, + 'boom'; "
+        "the same paths spelled by aliases) x every ordered selection of <= 2 of the 13 switch spellings (-q --quiet -v -vv -vvv "
+        "--ansi --no-ansi -n --no-interaction -h --help -V --version) inserted at every position, sampled selections of 3 and of "
+        "4-7 switches (one spelling per switch, random positions), and the same tokens after '--'; two cases in three run on "
+        "streams without ANSI support, one in three on streams with it (both / output only / error only); handlers record the IO "
+        "settings, write styled text at every verbosity level to both streams, ask a question with a default, or raise; "
+        "non-trivial = >= 1 switch; distinct by (tree, line, stream kind)")
 TRUSTED = ["bytes on the streams (escape sequences, help page text) are compared on the implementation side only: the model decides "
-           "settings and the action taken"]
+           "settings and the action taken",
+           "the ANSI mode compared with the model is OBSERVED: decoration of the run's own IO on the case's streams, and of a "
+           "second IO made by the same factory for the same line on streams of the other kind (forced = decorated on both, "
+           "off = on neither, auto = only on the ANSI-capable one)",
+           "every case runs on an application object of its own; the same line is also run on an application shared by all "
+           "cases of the tree in the worker, and a difference is reported as its own class (history dependence)"]
 ASSUMPTIONS = ["switches are recognised by exact token (-qn and --verbose are ordinary options for create_io)"]
 
 SWITCHES = ["-q", "--quiet", "-v", "-vv", "-vvv", "--ansi", "--no-ansi", "-n", "--no-interaction", "-h", "--help", "-V", "--version"]
@@ -22,8 +30,8 @@ GLOBAL_OPTS = [G.opt("help", "h", G.NO_VALUE), G.opt("quiet", "q", G.NO_VALUE), 
 HELP_CMD = T.cmd("help", default=True, args=[G.arg("command", G.A_OPT | G.A_MULTI)])
 
 
-def default_tree(rng, maxdepth):
-    t = T.rand_tree(rng, maxdepth, True)
+def default_tree(rng, maxdepth, deep=False):
+    t = T.rand_tree_depth(rng, maxdepth) if deep else T.rand_tree(rng, maxdepth, True)
     t = json.loads(json.dumps(t))
 
     def fix(c):
@@ -74,16 +82,65 @@ def _own_option_tokens(t, p):
     return []
 
 
+FAMILIES = [["-q", "--quiet"], ["-v", "-vv", "-vvv"], ["--ansi"], ["--no-ansi"], ["-n", "--no-interaction"], ["-h", "--help"],
+            ["-V", "--version"]]
+# stream kinds: 0 = neither stream supports ANSI, 1 = both do, 2 = the output only, 3 = the error output only
+SA_CYCLE = [0, 0, 1, 0, 0, 2, 0, 0, 1, 0, 0, 3]
+
+
+def _alias_spelling(t, p):
+    """the path p (names) spelled with the first alias of every command that has one; None when no command has"""
+    cs, out, any_alias = t["cmds"], [], False
+    for n in p:
+        c = next((x for x in cs if x["name"] == n and x["enabled"] and not x["anonymous"]), None)
+        if c is None:
+            return None
+        if c["aliases"]:
+            out.append(c["aliases"][0])
+            any_alias = True
+        else:
+            out.append(n)
+        cs = c["subs"]
+    return out if any_alias else None
+
+
+def _insert(line, sel, pos):
+    toks = list(line)
+    for s_, p_ in sorted(zip(sel, pos), key=lambda x: -x[1]):
+        toks.insert(p_, s_)
+    return toks
+
+
 def gen(rng, tier, info):
-    ntrees = {"quick": 14, "thorough": 60, "search": 6}[tier]
+    ntrees = {"quick": 13, "thorough": 60, "search": 6}[tier]
+    ndeep = {"quick": 1, "thorough": 6, "search": 1}[tier]
+    nmany = {"quick": 24, "thorough": 150, "search": 10}[tier]
     cases = []
+    hist = {}
     sel2 = [[a] for a in SWITCHES] + [[a, b] for a in SWITCHES for b in SWITCHES if a != b]
+
+    def add(t, toks, k, tail=None):
+        c = {"tree": t, "toks": toks, "k": k, "sa": SA_CYCLE[len(cases) % len(SA_CYCLE)]}
+        if tail is not None:
+            c["tail"] = tail
+        n = sum(1 for x in itertools.takewhile(lambda y: y != "--", toks) if x in SWITCHES)
+        hist[n] = hist.get(n, 0) + 1
+        cases.append(c)
+
+    def many(line):
+        fams = rng.sample(FAMILIES, rng.randint(4, 7))
+        sel = [rng.choice(f) for f in fams]
+        return _insert(line, sel, [rng.randint(0, len(line)) for _ in sel])
+
     for ti in range(ntrees):
-        t = default_tree(rng, 2)
+        deep = ti < ndeep
+        t = default_tree(rng, 3 if deep else 2, deep)
         ps = paths(t)
         rng.shuffle(ps)
-        lines = [[]]
-        for p, args in ps[:4]:
+        if deep:
+            ps.sort(key=lambda x: -len(x[0]))      # the longest paths first
+        lines, alias_lines = [[]], []
+        for p, args in ps[:(4 if deep or tier == "thorough" else 3)]:
             vals = []
             for a in args:
                 if a["flags"] & G.A_REQ:
@@ -96,25 +153,44 @@ def gen(rng, tier, info):
             own = _own_option_tokens(t, p)
             if own:
                 lines.append(p + own + vals)
+            ap = _alias_spelling(t, p)
+            if ap is not None:
+                alias_lines.append(ap + vals)
         for line in lines:
-            cases.append({"tree": t, "toks": line, "k": len(line)})
+            add(t, line, len(line))
             for sel in sel2:
                 for pos in range(len(line) + 1):
-                    cases.append({"tree": t, "toks": line[:pos] + sel + line[pos:], "k": pos})
-                cases.append({"tree": t, "toks": line + ["--"] + sel, "k": len(line), "tail": len(sel)})
+                    add(t, line[:pos] + sel + line[pos:], pos)
+                add(t, line + ["--"] + sel, len(line), len(sel))
             # a switch directly before the double dash, switches after it (the look-ahead of a valued switch must not eat '--')
             for before in SWITCHES:
                 for after in SWITCHES:
-                    cases.append({"tree": t, "toks": line + [before, "--", after], "k": len(line), "tail": 1})
+                    add(t, line + [before, "--", after], len(line), 1)
             for _ in range({"quick": 40, "thorough": 200, "search": 10}[tier]):
                 sel = rng.sample(SWITCHES, 3)
-                pos = sorted(rng.randint(0, len(line)) for _ in range(3))
-                toks = list(line)
-                for s, p in zip(reversed(sel), reversed(pos)):
-                    toks.insert(p, s)
-                cases.append({"tree": t, "toks": toks, "k": -1})
+                add(t, _insert(line, sel, [rng.randint(0, len(line)) for _ in range(3)]), -1)
+            # 4 to 7 of the seven switches at once
+            for _ in range(nmany):
+                add(t, many(line), -1)
+            sel = [f[0] for f in FAMILIES]
+            add(t, line + sel, -1)
+            add(t, line + ["--"] + sel, len(line), len(sel))
+        # the same paths spelled by aliases: every single switch at every position, after '--', and samples of 3 and 4-7
+        for line in alias_lines:
+            add(t, line, len(line))
+            for sw in SWITCHES:
+                for pos in range(len(line) + 1):
+                    add(t, line[:pos] + [sw] + line[pos:], pos)
+                add(t, line + ["--", sw], len(line), 1)
+            for _ in range(10):
+                sel = rng.sample(SWITCHES, 3)
+                add(t, _insert(line, sel, [rng.randint(0, len(line)) for _ in range(3)]), -1)
+                add(t, many(line), -1)
     info["exhaustive"] = True
-    info["distribution"] = {"trees": ntrees, "switch_spellings": len(SWITCHES), "selections_of_<=2": len(sel2), "cases": len(cases)}
+    info["distribution"] = {"trees": ntrees, "trees_with_a_path_of_3": ndeep, "switch_spellings": len(SWITCHES),
+                            "selections_of_<=2": len(sel2), "cases": len(cases),
+                            "switches_before_double_dash": {str(k): v for k, v in sorted(hist.items())},
+                            "stream_kinds": {str(k): sum(1 for c in cases if c["sa"] == k) for k in (0, 1, 2, 3)}}
     return cases
 
 
@@ -123,7 +199,9 @@ def wire(c):
 
 
 def describe(c):
-    return "line=%r on tree with commands %r" % (c["toks"], [x["name"] for x in c["tree"]["cmds"]])
+    return "line=%r (streams: %s) on tree with commands %r" % (
+        c["toks"], ["no ANSI support", "ANSI support", "output supports ANSI", "error output supports ANSI"][c.get("sa", 0)],
+        [x["name"] for x in c["tree"]["cmds"]])
 
 
 _APPS = {}
@@ -163,19 +241,8 @@ def _mk(tree):
     rec = {}
     _watch_help_pages(rec)
 
-    class Handler(object):
-        def handle(self, args, io, command):
-            rec["handler"] = command.full_name.split(" ")
-            rec["seen"] = [io.verbosity, int(io.is_quiet()), int(io.is_interactive()),
-                           int(io.output.supports_ansi()), int(io.error_output.supports_ansi())]
-            for lvl, name in ((0, "normal"), (1, "verbose"), (2, "veryverbose"), (4, "debug")):
-                io.write_line("<info>out-%s</info>" % name, lvl if lvl else None)
-                io.error_line("<info>err-%s</info>" % name, lvl if lvl else None)
-            rec["answer"] = Question("Name?", "dflt").ask(io)
-            for a in args.arguments().values():
-                if a == "boom" or (isinstance(a, list) and "boom" in a):
-                    raise RuntimeError("handler failed")
-            return 0
+    from props import c09handler
+    Handler = c09handler.make(rec, Question)
 
     def handler(c):
         return Handler()
@@ -196,21 +263,31 @@ def _mk(tree):
         rec["io"] = io
         return io
     config.set_io_factory(factory)
+    config._verif_orig_factory = orig_factory      # harness-side attribute: the factory itself, for the stream-kind probe
     app = ConsoleApplication(config)
     _APPS[key] = (app, config, rec)
     return _APPS[key]
 
 
-def _run(tree, toks, catch=True):
-    from clikit.args import ArgvArgs
+def _streams(sa):
+    """(output stream, error stream) for a stream kind: 0 neither supports ANSI, 1 both, 2 output only, 3 error only"""
     from clikit.io.output_stream import BufferedOutputStream
+
+    class AnsiStream(BufferedOutputStream):
+        def supports_ansi(self):
+            return True
+    return ((AnsiStream if sa in (1, 2) else BufferedOutputStream)(), (AnsiStream if sa in (1, 3) else BufferedOutputStream)())
+
+
+def _run(tree, toks, catch=True, sa=0):
+    from clikit.args import ArgvArgs
     from clikit.io.input_stream import StringInputStream
     app, config, rec = _mk(tree)
     rec.clear()
     if _WATCH:
         _WATCH[0] = rec
     config.set_catch_exceptions(catch)
-    out, errs = BufferedOutputStream(), BufferedOutputStream()
+    out, errs = _streams(sa)
     exc = None
     try:
         st = app.run(ArgvArgs(["script"] + list(toks)), StringInputStream("typed\n"), out, errs)
@@ -222,6 +299,21 @@ def _run(tree, toks, catch=True):
         settings = [io.verbosity, int(io.is_quiet()), int(io.is_interactive()), int(io.output.supports_ansi()), int(io.error_output.supports_ansi())]
     return {"status": st, "exc": exc, "out": out.fetch(), "err": errs.fetch(), "settings": settings,
             "handler": rec.get("handler"), "pre": rec.get("pre_handle"), "answer": rec.get("answer"), "seen": rec.get("seen"), "help_of": rec.get("help_of")}
+
+
+def _probe_decoration(tree, toks, sa):
+    """the IO the application's factory makes for this line on streams of kind `sa` (no run): is each output decorated?"""
+    from clikit.args import ArgvArgs
+    from clikit.io.input_stream import StringInputStream
+    app, config, rec = _mk(tree)
+    out, errs = _streams(sa)
+    io = config._verif_orig_factory(app, ArgvArgs(["script"] + list(toks)), StringInputStream(""), out, errs)
+    return [int(io.output.supports_ansi()), int(io.error_output.supports_ansi())]
+
+
+def _mode(plain, ansi):
+    """ANSI mode of one output from its decoration on a stream without / with ANSI support"""
+    return {(1, 1): 1, (0, 0): 0, (0, 1): 2}.get((plain, ansi), 4)
 
 
 def _pages(tree):
@@ -253,15 +345,43 @@ import re
 _SGR = re.compile("\x1b\\[[0-9;]*m")
 
 
+_SHARED = {}
+VERSION_LINE = "App version 1.0\n"      # name "app" (displayed "App") and version "1.0" of the generated configuration
+
+
+def _summary(r):
+    return [r["status"], r["out"], r["err"], r["settings"], r["handler"], r["pre"], r["answer"], r["seen"],
+            None if r["exc"] is None else type(r["exc"]).__name__]
+
+
 def run_impl(c):
-    tree, toks = c["tree"], c["toks"]
+    tree, toks, sa = c["tree"], c["toks"], c.get("sa", 0)
+    key = json.dumps(tree, sort_keys=True)
     pages = _pages(tree)
-    r = _run(tree, toks, True)
-    r2 = _run(tree, toks, False)
+    # (a) the line on the application every case of this tree shares inside this worker ...
+    shared = None
+    if "sa" in c:
+        if key in _SHARED:
+            _APPS[key] = _SHARED[key]
+        else:
+            _APPS.pop(key, None)
+            _SHARED[key] = _mk(tree)
+        shared = _summary(_run(tree, toks, True, sa))
+    # (b) ... and on an application of its own: everything below is a function of the case
+    _APPS.pop(key, None)
+    r = _run(tree, toks, True, sa)
     st = r["settings"]
-    ots = list(itertools.takewhile(lambda t: t != "--", toks))
-    ansi = 0 if "--no-ansi" in ots else (1 if "--ansi" in ots else 2)
-    settings = [ansi, st[0], st[1], st[2]] if st else None
+    settings = None
+    if st:
+        here = [st[3], st[4]]
+        other = _probe_decoration(tree, toks, {0: 1, 1: 0, 2: 3, 3: 2}[sa])
+        so, se = (1 if sa in (1, 2) else 0), (1 if sa in (1, 3) else 0)
+        mo = _mode(*((other[0], here[0]) if so else (here[0], other[0])))
+        me = _mode(*((other[1], here[1]) if se else (here[1], other[1])))
+        settings = [mo if mo == me else 10 + 5 * mo + me, st[0], st[1], st[2]]
+    r2 = {"exc": None}
+    if r["handler"] is None and r["status"] != 0:
+        r2 = _run(tree, toks, False, sa)       # the same failure with catching off: which exception it is
     plain_out = _SGR.sub("", r["out"])
     text = plain_out
     if st and st[1] and r2["exc"] is None and r["handler"] is None:
@@ -269,12 +389,12 @@ def run_impl(c):
         # (the quiet tokens before "--" are replaced by another value-less switch, so that the line keeps its shape)
         dd = toks.index("--") if "--" in toks else len(toks)
         alt = [("--no-ansi" if (t in ("-q", "--quiet") and i < dd) else t) for i, t in enumerate(toks)]
-        text = _SGR.sub("", _run(tree, alt, True)["out"])
+        text = _SGR.sub("", _run(tree, alt, True, sa)["out"])
     if r["handler"] is not None:
         action = [4, [S(p) for p in r["handler"]]]
     elif r2["exc"] is not None:
         action = [5, exc_code(r2["exc"])]
-    elif text.strip().lower() == "app version 1.0" and r["pre"] is not None:
+    elif text == VERSION_LINE and r["pre"] is not None:
         action = [3, [S(p) for p in r["pre"]]]
     else:
         which = [k for k, v in pages.items() if v == text]
@@ -288,14 +408,27 @@ def run_impl(c):
             action = [9, S(text[:60])]
     facts = {"status": r["status"], "out_empty": r["out"] == "", "err_empty": r["err"] == "", "esc_out": "\x1b" in r["out"],
              "esc_err": "\x1b" in r["err"], "answer": r["answer"], "seen": r["seen"], "handler": r["handler"],
+             "io_decorated": [st[3], st[4]] if st else None,
              "levels_out": [n for n in ("normal", "verbose", "veryverbose", "debug") if "out-" + n in r["out"]],
              "levels_err": [n for n in ("normal", "verbose", "veryverbose", "debug") if "err-" + n in r["err"]]}
-    if "tail" in c and c["k"] > 0:
+    if shared is not None:
+        mine = _summary(r)
+        facts["shared_same"] = shared == mine
+        if not facts["shared_same"]:
+            facts["shared_diff"] = [i for i, (a, b) in enumerate(zip(shared, mine)) if a != b]
+    if "tail" in c:
         # tokens after "--" are plain arguments of the selected command: compare with neutral argument values
         k = len(toks) - c["tail"]
-        b = _run(tree, toks[:k] + ["zz"] * c["tail"], True)
-        facts["tail_same"] = (b["status"] == r["status"] and b["settings"] == r["settings"] and b["handler"] == r["handler"]
-                              and b["out"] == r["out"] and b["err"] == r["err"])
+        b = _run(tree, toks[:k] + ["zz"] * c["tail"], True, sa)
+        same = (b["status"] == r["status"] and b["settings"] == r["settings"] and b["handler"] == r["handler"])
+        if c["k"] > 0:
+            same = same and b["out"] == r["out"] and b["err"] == r["err"]
+        else:
+            # on the empty line the tail is the argument of the help command (the name of the command to explain): the
+            # report quotes it, so the texts differ by that name; everything a switch would change is still compared
+            same = same and ((b["out"] == "", b["err"] == "", "\x1b" in b["out"], "\x1b" in b["err"])
+                             == (r["out"] == "", r["err"] == "", "\x1b" in r["out"], "\x1b" in r["err"]))
+        facts["tail_same"] = same
     return [[0, settings, action], facts]
 
 
@@ -320,6 +453,8 @@ def oracle(c, o):
     ots = list(itertools.takewhile(lambda t: t != "--", toks))
     quiet = "-q" in ots or "--quiet" in ots
     verb = 4 if "-vvv" in ots else 2 if "-vv" in ots else 1 if "-v" in ots else 0
+    no_ansi = "--no-ansi" in ots
+    force_ansi = "--ansi" in ots and not no_ansi
     if not isinstance(f["status"], int) or not (0 <= f["status"] <= 255):
         return "status-invalid"
     if settings is None:
@@ -330,19 +465,29 @@ def oracle(c, o):
         return "quiet-switch-setting"
     if bool(settings[3]) != (not ("-n" in ots or "--no-interaction" in ots)):
         return "no-interaction-switch-setting"
+    # the ANSI switches, on the IO the factory made (any stream: the mode is observed on both kinds of stream)
+    if no_ansi and settings[0] != 0:
+        return "no-ansi-switch-setting"
+    if force_ansi and settings[0] != 1:
+        return "ansi-switch-setting"
     if quiet and not (f["out_empty"] and f["err_empty"]):
         return "quiet-run-produced-output"
-    if "--no-ansi" in ots and (f["esc_out"] or f["esc_err"]):
+    if no_ansi and (f["esc_out"] or f["esc_err"]):
         return "no-ansi-run-emitted-escape"
+    if force_ansi and not quiet:
+        # every piece of output of this harness carries a style (the handler's lines, error reports <error>, help pages
+        # <b>, the version line <c1>): under --ansi whatever was printed must be decorated, on any stream
+        if (not f["out_empty"] and not f["esc_out"]) or (not f["err_empty"] and not f["esc_err"]):
+            return "ansi-switch-did-not-decorate"
     if f["handler"] is not None:
-        if f["seen"][0] != verb or bool(f["seen"][1]) != quiet:
+        if f["seen"][0] != verb or bool(f["seen"][1]) != quiet or f["seen"][3:5] != f["io_decorated"]:
             return "handler-saw-other-settings"
         if not quiet:
             lv = ["normal", "verbose", "veryverbose", "debug"]
             exp = [n for n, need in zip(lv, (0, 1, 2, 4)) if verb >= need]
             if f["levels_out"] != exp or f["levels_err"] != exp:
                 return "verbosity-levels-shown"
-            if "--ansi" in ots and "--no-ansi" not in ots and not (f["esc_out"] and f["esc_err"]):
+            if force_ansi and not (f["esc_out"] and f["esc_err"]):
                 return "ansi-switch-did-not-decorate"
         if ("-n" in ots or "--no-interaction" in ots) != (f["answer"] == "dflt"):
             return "no-interaction-question-default"
@@ -360,12 +505,16 @@ def oracle(c, o):
         return "unrecognised-output"
     if "tail_same" in f and not f["tail_same"]:
         return "switch-after-double-dash-has-effect"
+    if f.get("shared_same") is False:
+        # not a statement of C09 itself: the same line on an application that has run other lines before behaves
+        # differently (what C17 forbids); history dependent, so a replay of this one case may not reproduce it
+        return "differs-on-shared-application"
     return None
 
 
 def nontrivial_key(c, o):
     if any(t in SWITCHES for t in c["toks"]):
-        return [json.dumps(c["tree"], sort_keys=True), c["toks"]]
+        return [json.dumps(c["tree"], sort_keys=True), c["toks"], c.get("sa", 0)]
     return None
 
 
@@ -374,4 +523,4 @@ def shrink(c):
     for i in range(len(t)):
         if "tail" in c:
             continue
-        yield {"tree": c["tree"], "toks": t[:i] + t[i + 1:], "k": -1}
+        yield {"tree": c["tree"], "toks": t[:i] + t[i + 1:], "k": -1, "sa": c.get("sa", 0)}
